@@ -37,3 +37,8 @@ Lemma tie_model_consts :
   gen_indexSizeWithSafetyBuffer = indexSizeWithSafetyBuffer /\ gen_chanCapExpr = chanCap /\
   gen_syncThreshold = syncThreshold.
 Proof. vm_compute. repeat split; reflexivity. Qed.
+
+(* both kernel families are handed the same fill limit, the declared one *)
+Lemma tie_slice_limits :
+  gen_sliceLimitAVX2 = gen_indexSizeWithSafetyBuffer /\ gen_sliceLimitAVX512 = gen_indexSizeWithSafetyBuffer.
+Proof. vm_compute. split; reflexivity. Qed.
